@@ -604,7 +604,8 @@ impl Decoder {
                 }
                 let (iv, ciphertext) = data.split_at_mut(16);
                 let cipher =
-                    t!(Aes256CbcDec::new_from_slices(self.key(), iv).map_err(|_| PdfError::DecryptionFailure));
+                    // AES-256 uses the whole 32 byte file key (key() is capped at the 16 bytes of RC4 / AESV2)
+                    t!(Aes256CbcDec::new_from_slices(&self.key[.. self.key_size.min(self.key.len())], iv).map_err(|_| PdfError::DecryptionFailure));
                 Ok(t!(cipher
                     .decrypt_padded_mut::<Pkcs7>(ciphertext)
                     .map_err(|_| PdfError::DecryptionFailure)))
